@@ -11,7 +11,10 @@ for mp in sorted(glob.glob(os.path.join(V, "seeded", "*", "meta.json"))):
     res = []
     for c, r in sorted(m.get("checks", {}).items()):
         res.append("%s: %s" % (c, r["result"]))
-    rows.append((name, m["property"], ", ".join(files), m["needs_to_manifest"], "; ".join(res)))
+    needs = " ".join(m["needs_to_manifest"].replace("|", "/").split())
+    if len(needs) > 230:
+        needs = needs[:227] + "…"
+    rows.append((name, m["property"], ", ".join(files), needs, "; ".join(res)))
 print("| seeded change | targets | file | needs, to manifest | result of `./check … quick` with the change applied |")
 print("|---|---|---|---|---|")
 for r in rows:
